@@ -737,40 +737,49 @@ impl BitVector {
         let avx2_blocks = 4;
         let mut block_idx = start_block;
 
-        unsafe {
-            // Process 4 blocks at a time with AVX2
-            while block_idx + avx2_blocks <= end_block + 1
-                && block_idx + avx2_blocks <= self.blocks.len()
-                && block_idx + avx2_blocks <= other.blocks.len()
-            {
-                let self_ptr = self.blocks.as_ptr().add(block_idx) as *const __m256i;
-                let other_ptr = other.blocks.as_ptr().add(block_idx) as *const __m256i;
-                let result_ptr = self.blocks.as_mut_ptr().add(block_idx) as *mut __m256i;
-
-                let self_vec = _mm256_loadu_si256(self_ptr);
-                let other_vec = _mm256_loadu_si256(other_ptr);
-
-                let result_vec = match op {
-                    BitwiseOp::And => _mm256_and_si256(self_vec, other_vec),
-                    BitwiseOp::Or => _mm256_or_si256(self_vec, other_vec),
-                    BitwiseOp::Xor => _mm256_xor_si256(self_vec, other_vec),
-                };
-
-                _mm256_storeu_si256(result_ptr, result_vec);
-                block_idx += avx2_blocks;
-            }
-        }
-
-        // Handle remaining blocks with scalar operations
         while block_idx <= end_block
             && block_idx < self.blocks.len()
             && block_idx < other.blocks.len()
         {
-            match op {
-                BitwiseOp::And => self.blocks[block_idx] &= other.blocks[block_idx],
-                BitwiseOp::Or => self.blocks[block_idx] |= other.blocks[block_idx],
-                BitwiseOp::Xor => self.blocks[block_idx] ^= other.blocks[block_idx],
+            // AVX2 only for four blocks that lie completely inside [start, end)
+            let full4 = block_idx * BITS_PER_BLOCK >= start
+                && (block_idx + avx2_blocks) * BITS_PER_BLOCK <= end
+                && block_idx + avx2_blocks <= self.blocks.len()
+                && block_idx + avx2_blocks <= other.blocks.len();
+            if full4 {
+                unsafe {
+                    let self_ptr = self.blocks.as_ptr().add(block_idx) as *const __m256i;
+                    let other_ptr = other.blocks.as_ptr().add(block_idx) as *const __m256i;
+                    let result_ptr = self.blocks.as_mut_ptr().add(block_idx) as *mut __m256i;
+
+                    let self_vec = _mm256_loadu_si256(self_ptr);
+                    let other_vec = _mm256_loadu_si256(other_ptr);
+
+                    let result_vec = match op {
+                        BitwiseOp::And => _mm256_and_si256(self_vec, other_vec),
+                        BitwiseOp::Or => _mm256_or_si256(self_vec, other_vec),
+                        BitwiseOp::Xor => _mm256_xor_si256(self_vec, other_vec),
+                    };
+
+                    _mm256_storeu_si256(result_ptr, result_vec);
+                }
+                block_idx += avx2_blocks;
+                continue;
             }
+
+            // edge (or leftover) block: only the bits of [start, end) inside this block may change
+            let base = block_idx * BITS_PER_BLOCK;
+            let lo = start.max(base) - base;
+            let hi = end.min(base + BITS_PER_BLOCK) - base;
+            let hi_mask = if hi >= 64 { u64::MAX } else { (1u64 << hi) - 1 };
+            let mask = hi_mask & !((1u64 << lo) - 1);
+            let (a, b) = (self.blocks[block_idx], other.blocks[block_idx]);
+            let r = match op {
+                BitwiseOp::And => a & b,
+                BitwiseOp::Or => a | b,
+                BitwiseOp::Xor => a ^ b,
+            };
+            self.blocks[block_idx] = (a & !mask) | (r & mask);
             block_idx += 1;
         }
 
